@@ -2,10 +2,10 @@
 # Run the repository's own test suite on a snapshot of /repo HEAD (scratch worktree under /tmp, removed afterwards).
 # usage: tools/suite.sh [pytest args]   -> log in /tmp/suite_<sha>.log
 set -u
-sha=$(git -C /repo rev-parse --short HEAD)
+sha=$(git -C /repo rev-parse --short ${REV:-HEAD})
 wt=/tmp/suite_$sha
 rm -rf "$wt"; git -C /repo worktree prune
-git -C /repo worktree add --detach -q "$wt" HEAD || exit 2
+git -C /repo worktree add --detach -q "$wt" $sha || exit 2
 cd "$wt"
 PYTHONPATH="$wt/src" /venv/bin/python -m pytest -q -p no:cacheprovider --timeout=900 -n 8 "$@" > /tmp/suite_$sha.log 2>&1
 rc=$?
